@@ -139,14 +139,19 @@ class HttpProtocolHandler(BaseTcpServerHandler[HttpClientConnection]):
     ) -> bool:
         """Returns True if proxy must tear down."""
         # Flush buffer for ready to write sockets
-        self.writes_teared = await self.handle_writables(writables)
-        if self.writes_teared:
+        if await self.handle_writables(writables):
+            self.writes_teared = True
             return True
         # Invoke plugin.write_to_descriptors
-        if self.plugin:
+        if self.plugin and not self.writes_teared:
             self.writes_teared = await self.plugin.write_to_descriptors(writables)
-            if self.writes_teared:
+        if self.writes_teared:
+            # Plugin descriptors can no longer be written to.  Like for the
+            # read side, output already queued for the client must reach it
+            # before we tear down: stop reading and wait for the flush.
+            if not self.work.has_buffer():
                 return True
+            self.reads_teared = True
         # Read from ready to read sockets if reads have not already teared down
         if not self.reads_teared:
             self.reads_teared = await self.handle_readables(readables)
